@@ -4,6 +4,7 @@ import Driver.OpsKey
 import Driver.OpsLeaf
 import Driver.OpsMutate
 import Driver.OpsUpdate
+import Driver.OpsNewMap
 namespace Mxj.Drv
 
 def dispatch (op : String) (args : List String) : Out :=
@@ -20,6 +21,7 @@ def dispatch (op : String) (args : List String) : Out :=
   | "remove" => runP opRemove args
   | "rename" => runP opRename args
   | "upd" => runP opUpd args
+  | "newmap" => runP opNewMap args
   | _ => "bad-op"
 
 end Mxj.Drv
